@@ -337,7 +337,9 @@ func (m *FieldMap) getOrCreate(tag Tag) field {
 	defer m.rwLock.Unlock()
 
 	if f, ok := m.tagLookup[tag]; ok {
+		// A scalar replaces whatever the tag held, including the members of a group.
 		f = f[:1]
+		m.tagLookup[tag] = f
 		return f
 	}
 
